@@ -193,8 +193,18 @@ def run_programs(workdir, programs, shards=16):
                 t = sx_parse(tl.rstrip("\n"))
                 m = sx_parse(ml.rstrip("\n"))
                 assert t[0] == m[0], (t[0], m[0])
+                if m[1] == "BAD:ternary-models-disagree":
+                    # driver/ops_core.ml tern3: the order-faithful ternary engine (Model/Apply3.v) and the compositional
+                    # model (Model/Ops.v) differ on well-formed operands and a total consistent table, contradicting
+                    # Proofs/Apply3Sem.v ternary_faithful_eq: a model/extraction/driver bug, a hard error for EVERY
+                    # property (also for those whose judge does not look at the model's result of the step)
+                    raise RuntimeError("ternary models disagree (model-internal cross-check) on step %s: %s" % (t[0], sx_str(t[1])[:600]))
                 out.append((t[0], t[1], t[2], m[1], m[2]))
     return out
+
+
+ENGINES = ("slow", "fast", "stack")
+VM_SUFFIXES = ("", "_fast", "_stack")
 
 
 def _binary_operands(call):
@@ -208,10 +218,12 @@ def _small_binary(st, max_nodes):
 
 
 def engine_crosscheck(workdir, steps, limit=400, max_nodes=2000):
-    """Cross-checks the two extracted engines of the binary operators on a sample of this run's
-    fbin/bin/named steps: the reference engine (Model/Apply.v) and the fast one (Model/ApplyFast.v, proved
-    equal in Proofs/ApplyFast.v) are both forced on the same transcript lines (BDD_ENGINE=slow|fast) and must
-    print identical results.  Operands above max_nodes nodes are left to the fast engine only."""
+    """Cross-checks the three extracted engines of the binary operators on a sample of this run's
+    fbin/bin/named steps: the reference engine (Model/Apply.v), the fast one (Model/ApplyFast.v, proved
+    equal in Proofs/ApplyFast.v) and the step-faithful explicit-stack machine (Model/ApplyStack.v, one step =
+    one iteration of the Rust loop, proved equal in Proofs/ApplyStack.v) are all forced on the same transcript
+    lines (BDD_ENGINE=slow|fast|stack) and must print identical results, equal to the normal run's model answer.
+    Operands above max_nodes nodes are left to the fast engine only."""
     import subprocess
     cand = [s for s in steps if _small_binary(s, max_nodes)]
     if not cand:
@@ -227,29 +239,37 @@ def engine_crosscheck(workdir, steps, limit=400, max_nodes=2000):
         for (cid, call, impl, model, aux) in sample:
             f.write(sx_str([cid, call, impl]) + "\n")
     outs = {}
-    for eng in ("slow", "fast"):
+    procs = {}
+    for eng in ENGINES:
         env = dict(os.environ)
         env["BDD_ENGINE"] = eng
-        p = subprocess.run(["sh", "-c", "ulimit -s unlimited 2>/dev/null; exec \"$0\" \"$1\"", DRIVER_BIN, tpath],
-                           env=env, stdout=subprocess.PIPE, stderr=subprocess.PIPE, timeout=3600, text=True)
-        if p.returncode != 0:
-            raise RuntimeError("model driver crashed in the engine cross-check (%s): %s" % (eng, p.stderr[-2000:]))
-        outs[eng] = [sx_parse(l)[1] for l in p.stdout.splitlines() if l]
-    if len(outs["slow"]) != len(sample) or len(outs["fast"]) != len(sample):
-        raise RuntimeError("engine cross-check: driver printed %d/%d lines for %d steps" % (len(outs["slow"]), len(outs["fast"]), len(sample)))
-    agree = sum(1 for a, b, st in zip(outs["slow"], outs["fast"], sample) if a == b == st[3])
+        procs[eng] = subprocess.Popen(["sh", "-c", "ulimit -s unlimited 2>/dev/null; exec \"$0\" \"$1\"", DRIVER_BIN, tpath],
+                                      env=env, stdout=subprocess.PIPE, stderr=subprocess.PIPE, text=True)
+    for eng in ENGINES:
+        try:
+            out, err = procs[eng].communicate(timeout=3600)
+        except subprocess.TimeoutExpired:
+            for q in procs.values():
+                q.kill()
+            raise
+        if procs[eng].returncode != 0:
+            raise RuntimeError("model driver crashed in the engine cross-check (%s): %s" % (eng, err[-2000:]))
+        outs[eng] = [sx_parse(l)[1] for l in out.splitlines() if l]
+    if any(len(outs[e]) != len(sample) for e in ENGINES):
+        raise RuntimeError("engine cross-check: driver printed %s lines for %d steps" % ("/".join(str(len(outs[e])) for e in ENGINES), len(sample)))
+    agree = sum(1 for i, st in enumerate(sample) if all(outs[e][i] == st[3] for e in ENGINES))
     return len(sample), agree
 
 
 def vm_crosscheck(workdir, steps, limit=40):
     """Validates extraction against kernel evaluation: re-evaluates a sample of fbin/bin/named steps (small
-    operands) with vm_compute inside coqc, with the reference engine and with the fast engine, and compares
-    both with the extracted binary's answers."""
+    operands) with vm_compute inside coqc, with the reference engine, the fast engine and the explicit-stack
+    machine, and compares all three with the extracted binary's answers."""
     sample = [s for s in steps if _small_binary(s, 300)][:limit]
     if not sample:
         return 0, 0
     lines = ["From Coq Require Import List NArith. Import ListNotations.",
-             "From BddVerif Require Import Model.Bdd Model.Apply Model.ApplyFast.", "Open Scope N_scope.",
+             "From BddVerif Require Import Model.Bdd Model.Apply Model.ApplyFast Model.ApplyStack.", "Open Scope N_scope.",
              "Definition show (o : outcome bdd) : list (N * N * N) := match o with Ok r => map (fun n => (nvar n, nlow n, nhigh n)) r | _ => [] end."]
 
     def coq_bdd(x):
@@ -263,7 +283,7 @@ def vm_crosscheck(workdir, steps, limit=40):
 
     named = {"and": "op_and", "or": "op_or", "imp": "op_imp", "iff": "op_iff", "xor": "op_xor", "and_not": "op_and_not"}
     for (cid, call, impl, model, aux) in sample:
-        for sfx in ("", "_fast"):
+        for sfx in VM_SUFFIXES:
             if call[0] == "fbin":
                 t, fa, fb, fo, a, b = call[1:7]
                 lines.append("Eval vm_compute in show (fused_binary_flip_op%s %s %s %s %s %s %s)." % (sfx, coq_bdd(a), coq_bdd(b), coq_ov(fa), coq_ov(fb), coq_ov(fo), coq_tab(t)))
@@ -278,8 +298,9 @@ def vm_crosscheck(workdir, steps, limit=40):
     if rc != 0:
         raise RuntimeError("vm_compute cross-check failed to compile: " + (out + err)[-2000:])
     vals = re.findall(r"=\s*(\[.*?\])\s*:\s*list", out, flags=re.S)
-    if len(vals) != 2 * len(sample):
-        raise RuntimeError("vm_compute cross-check: %d answers for %d evaluations" % (len(vals), 2 * len(sample)))
+    ne = len(VM_SUFFIXES)
+    if len(vals) != ne * len(sample):
+        raise RuntimeError("vm_compute cross-check: %d answers for %d evaluations" % (len(vals), ne * len(sample)))
 
     def triples(v):
         return [tuple(int(x) for x in re.findall(r"\d+", t)) for t in re.findall(r"\(([^()]*)\)", v)]
@@ -288,7 +309,7 @@ def vm_crosscheck(workdir, steps, limit=40):
     for i, (cid, call, impl, model, aux) in enumerate(sample):
         mb = unwrap_bdd(model)
         want = bdd_nodes(mb) if mb is not None else []
-        if triples(vals[2 * i]) == want and triples(vals[2 * i + 1]) == want:
+        if all(triples(vals[ne * i + j]) == want for j in range(ne)):
             agree += 1
     return len(sample), agree
 
@@ -382,6 +403,7 @@ def finish(v, coq, t0, rule, exhaustive=False, extra=None, cross=(0, 0), engines
         "exhaustive": exhaustive,
         "vm_compute_crosscheck": {"cases": cross[0], "agree": cross[1]},
         "engine_crosscheck_fast_vs_reference": {"cases": engines[0], "agree": engines[1]},
+        "engine_crosscheck_engines": list(ENGINES),
         "notes": v.notes,
     }
     if extra:
